@@ -1,5 +1,6 @@
 //! S1 — the checker as a concurrent system.
 
+pub mod explorer;
 pub mod gen;
 pub mod graph;
 pub mod oracle;
